@@ -30,6 +30,9 @@ type c19Case struct {
 	After   []opSpec `json:"after"`           // calls issued after Close returned
 	Queue   int      `json:"queue"`
 	FlushMS int      `json:"flush_ms"`
+	// PreSplit: after warming up, a used region is split (its server stays healthy) and the
+	// daughters are used, so that the location cache has replaced a region before Close
+	PreSplit bool `json:"pre_split,omitempty"`
 	// ReleaseFirst: release the gate before (true) or after (false) Close runs -
 	// e.g. the dial completes just before or just after
 	ReleaseAfterMS int `json:"release_after_ms"`
@@ -73,6 +76,17 @@ func c19RunInBubble(c c19Case) (out Outcome) {
 			g, _ := hrpc.NewGet(context.Background(), []byte("t"), []byte(k), hrpc.Families(markerFam(fmt.Sprintf("mkwarm%d", i))))
 			if _, err := client.Get(g); err != nil {
 				return viol("harness", "warm-up failed: %v", err)
+			}
+		}
+	}
+	if c.Warm && c.PreSplit {
+		if r := cl.Owner("t", []byte("z")); r != nil {
+			cl.Split(r, []byte("r"), 7000, r.Addr, "rs2:16020")
+			for i, k := range []string{"n", "z"} {
+				g, _ := hrpc.NewGet(context.Background(), []byte("t"), []byte(k), hrpc.Families(markerFam(fmt.Sprintf("mksplit%d", i))))
+				if _, err := client.Get(g); err != nil {
+					return viol("harness", "get after split failed: %v", err)
+				}
 			}
 		}
 	}
@@ -170,7 +184,18 @@ func c19RunInBubble(c c19Case) (out Outcome) {
 	case "dialrefused":
 		time.Sleep(60 * time.Millisecond)
 	}
-	synctest.Wait()
+	if c.Point == "dial" {
+		// While a dial is held inside the region client's dial-once section, other
+		// establishers of the same server queue on its mutex; that is not a durable block,
+		// so neither synctest.Wait nor the fake clock can be used until the dial is
+		// released: wait for the dialer's own report, then Close and release directly.
+		select {
+		case <-cl.DialHeld:
+		case <-time.After(time.Minute):
+		}
+	} else {
+		synctest.Wait()
+	}
 	inFlight := 0
 	mu.Lock()
 	for _, r := range results {
@@ -204,7 +229,7 @@ func c19RunInBubble(c c19Case) (out Outcome) {
 		return viol("close-blocked@"+c.Point, "Close took %v of virtual time", d)
 	}
 	// whatever was being waited for now happens (a dial completes, ZooKeeper answers...)
-	if c.ReleaseAfterMS > 0 && c.Point != "backoff" {
+	if c.ReleaseAfterMS > 0 && c.Point != "backoff" && c.Point != "dial" {
 		time.Sleep(time.Duration(c.ReleaseAfterMS) * time.Millisecond)
 	}
 	cl.Lock()
@@ -343,6 +368,7 @@ func c19Gen(t *rapid.T) c19Case {
 	}
 	c.Queue = rapid.SampledFrom([]int{1, 2, 100}).Draw(t, "queue")
 	c.FlushMS = rapid.SampledFrom([]int{0, 1, 20}).Draw(t, "flush")
+	c.PreSplit = c.Warm && rapid.Bool().Draw(t, "presplit")
 	c.Twice = rapid.SampledFrom([]string{"", "", "seq", "concurrent"}).Draw(t, "twice")
 	c.ReleaseAfterMS = rapid.SampledFrom([]int{0, 0, 1, 10, 500}).Draw(t, "release")
 	n := 0
